@@ -632,7 +632,7 @@ func Run(r *ev.Run) {
 		}
 	}
 	var specs []spec
-	mult := r.Pick(1, 25)
+	mult := r.Pick(4, 30)
 	for i := 0; i < 1800*mult; i++ {
 		specs = append(specs, b.plain())
 	}
